@@ -220,6 +220,11 @@ func earlyResponseCase(w *mon.W, c *mon.Case, getC func(ccfg) *cengine) {
 		c.Violate("response-mismatch", "%s: Do returned nil with status %d, %d body bytes (stream error %v), header fields %q; want 413, the %d-byte body and the field spelled %q", desc, o.Status, len(o.Body), o.BodyErr, o.Hdrs, len(respBody), name)
 		return
 	}
+	if cf.stream && len(respBody) > 0 && !o.Stream {
+		// (a streaming client reads resp.BodyStream(), as it does for every other response with a body)
+		c.Violate("response-mismatch", "%s: Do returned nil with status %d, but the %d-byte body is not behind resp.BodyStream() (the streaming option was not applied to this response)", desc, o.Status, len(respBody))
+		return
+	}
 	w.Shape(mon.Hash64("early-response", desc))
 }
 
